@@ -168,8 +168,11 @@ class TU:
             o2 = [l for l in r2[1].split('\n') if l.startswith('OUT ')]
             # exit code classes: 0 ok, 42 assert, 77 assume; the translated build aborts (134) on assert
             c1 = 'assert' if r1[0] == 42 else 'ok' if r1[0] == 0 else 'rc%d' % r1[0]
-            c2 = 'assert' if (r2[0] in (42, -6, 134)) else 'ok' if r2[0] == 0 else 'rc%d' % r2[0]
-            if o1 == o2 and c1 == c2 and c1 in ('ok', 'assert'):
+            c2 = 'assert' if r2[0] == 42 else 'ok' if r2[0] == 0 else 'rc%d' % r2[0]
+            # library assert()/crash: the native build aborts (134/-6/-11), the translated build fails the corresponding obligation (42)
+            if c1 in ('rc134', 'rc-6', 'rc-11', 'rc139') and c2 == 'assert': c1 = 'assert'
+            if o1 == o2 and c1 == c2:
+                # identical behaviour (also an identical crash/abort caused by the library itself) is agreement
                 ok += 1
             else:
                 problems.append({'vector': [choices, nd], 'native': [c1, o1[:20], r1[2][-300:]], 'translated': [c2, o2[:20], r2[2][-300:]]})
@@ -254,6 +257,9 @@ def nd_values_from_trace(trace):
     vals = []
     for st in trace or []:
         if st.get('stepType') == 'assignment' and st.get('lhs') in ('vf_nd_log',):
+            fn = (st.get('sourceLocation') or {}).get('function')
+            if st.get('hidden') or fn in (None, '__CPROVER_initialize', '__CPROVER__start'):
+                continue        # static zero-initialisation of the log cell, not a nondet value
             v = st.get('value', {})
             b = v.get('binary')
             if b is not None:
